@@ -67,6 +67,7 @@ type Options struct {
 	Unbuffered      bool // file will be read through the unbuffered path: directories <= 85 entries, values <= 1024
 	PlainStrings    bool
 	FirstIFD        int // > 0: offset of IFD0 (the bytes between the TIFF header and it are padding)
+	LongText        bool // one or two of ImageDescription / Software / Copyright are 1023..20000 bytes long (around and beyond the readers' 1 KiB / 4 KiB windows)
 	ManyEntries     bool // one directory is filled with embedded-value foreign tags up to (or just below) the entry limit: 128, or 85 with Unbuffered
 }
 
@@ -242,6 +243,19 @@ func GenRecord(rt *rapid.T, o Options) *Record {
 	r.Software = optStr(rt, "software", p, 1, 60)
 	r.Artist = optStr(rt, "artist", p, 1, 60)
 	r.Copyright = optStr(rt, "copyright", p, 1, 120)
+	if o.LongText {
+		targets := []**string{&r.ImageDescription, &r.Software, &r.Copyright}
+		for i, n := 0, rapid.IntRange(1, 2).Draw(rt, "long.n"); i < n; i++ {
+			l := rapid.SampledFrom([]int{1022, 1023, 1024, 1025, 2000, 4094, 4095, 4096, 4097, 5000, 20000}).Draw(rt, "long.len")
+			b := make([]byte, l)
+			seed := rapid.IntRange(0, 1<<16).Draw(rt, "long.seed")
+			for j := range b {
+				b[j] = "abcdefghijklmnopqrstuvwxyzABCDEFGHIJKLMNOPQRSTUVWXYZ0123456789-_"[(j*7+seed+j/61)%64]
+			}
+			v := string(b)
+			*targets[rapid.IntRange(0, 2).Draw(rt, "long.which")] = &v
+		}
+	}
 	dim := func(label string) *uint32 {
 		if !Chance(rt, label+"?", p) {
 			return nil
